@@ -185,7 +185,7 @@ class Model:
 
 
 class St:
-    __slots__ = ('X', 'm', 'last', 'nontriv', 'nsteps', 'names')
+    __slots__ = ('X', 'm', 'last', 'nontriv', 'nsteps', 'names', 'held')
 
 
 def klass(m, k):
@@ -200,7 +200,7 @@ class C13(System):
     merge_across_configs = True
 
     def __init__(self, name, templates, depth_q, depth_t, ops=('copy', 'proxy', 'flow_proxy', 'copy_like', 'link', 'unlink', 'mutate'),
-                 pairs='ordered', pickle_depth=1, link_flags=None, tcap_q=None, tcap_t=None, copy_like_pairs=None, views=False):
+                 pairs='ordered', pickle_depth=1, link_flags=None, tcap_q=None, tcap_t=None, copy_like_pairs=None, views=False, pviews=False):
         self.name = name
         self.templates = tuple(templates)
         self._dq, self._dt = depth_q, depth_t
@@ -213,6 +213,9 @@ class C13(System):
         #: observe the mass and volume views of every stream after every transition (they are memoised wrappers around the molar
         #: data, T/P and phase containers, so "shares flows" must hold through them too) and write through the mass view
         self.views = views
+        #: action `view` takes and HOLDS x[p] for every phase of a multi-phase stream; after every later transition every held view and
+        #: a freshly requested x[p] must read the parent's row, T and P; writes through a held view (vflow, vT) are ordinary mutations
+        self.pviews = pviews
 
     def warm(self):
         fx.tmo(); _thermo('A'); _thermo('B')
@@ -245,6 +248,7 @@ class C13(System):
         st.m = Model()
         st.m.add_template(0, config[0]); st.m.add_template(1, config[1])
         st.last = None; st.nontriv = False; st.nsteps = 0
+        st.held = {}
         if self.views:
             # reading the views creates memo entries: do it here so that it is part of every rebuilt state
             for x in st.X[:2]: x.imass.data.to_array(); x.ivol.data.to_array()
@@ -261,7 +265,17 @@ class C13(System):
             out.append((d, ids.setdefault(id(x._imol), len(ids)), getattr(x, '_price', None), x._ID, order))
         # the packages' index caches are written by every cross-package copy and read by the next one
         caches = tuple(tuple((repr(k), repr(v)) for k, v in _thermo(pk).chemicals._index_cache.items()) for pk in ('A', 'B', 'C'))
-        return (tuple(out), st.m.key(), min(st.nsteps, self.pickle_depth + 1), caches)
+        held = []
+        for k in sorted(st.held):
+            x = st.X[k]; rows = getattr(x._imol.data, 'rows', None)
+            def rowno(o):
+                if rows is not None:
+                    for i, r in enumerate(rows):
+                        if r is o: return i
+                return ('detached', fx.sparse_digest(o))
+            held.append((k, tuple((p, rowno(v._imol.data), v._thermal_condition is x._thermal_condition,
+                                   getattr(x, '_streams', {}).get(p) is v) for p, v in sorted(st.held[k].items()))))
+        return (tuple(out), st.m.key(), min(st.nsteps, self.pickle_depth + 1), caches, tuple(held))
 
     # ---- actions -------------------------------------------------------------------------------------------------
     def actions(self, st):
@@ -288,6 +302,17 @@ class C13(System):
                     for f, p, t in self.link_flags: acts.append(('link', i, j, f, p, t))
         if 'unlink' in self.ops:
             for i in live: acts.append(('unlink', i))
+        if self.pviews:
+            for i in live:
+                if m.slots[i]['kind'] != 'M': continue
+                v = m.view(i)
+                if i not in st.held: acts.append(('view', i))
+                else:
+                    hp = [p for p in v[1] if p in st.held[i]]
+                    if hp:
+                        cur = v[2][hp[-1]].get(_CAS[_W], 0.0)
+                        acts.append(('vflow', i, hp[-1], _W, 6.0 if cur != 6.0 else 0.0))
+                        acts.append(('vT', i, hp[0], 344.0 if v[3] != 344.0 else 377.0))
         if 'reorder' in self.ops:
             # zero a flow and set it again: same values, but the entry moves to the end of the sparse dict
             for i in live:
@@ -370,6 +395,27 @@ class C13(System):
                     if real[w] != sh[w]:
                         raise Violation('alias-mismatch', f'after {a!r} (streams {st.names}): streams {i},{j} share {w}: real={real[w]} model={sh[w]}',
                                         match=dict(op=op, what=w, real=real[w], **match0))
+        # held per-phase views (and a freshly requested x[p]) follow their parent
+        for k in sorted(st.held):
+            if m.slots[k] is None or m.slots[k]['kind'] != 'M':
+                del st.held[k]; continue
+            x = X[k]; exp = m.view(k)
+            st.held[k] = {p: v for p, v in st.held[k].items() if p in exp[1]}
+            cas = [c.CAS for c in x.chemicals]
+            for p, v in sorted(st.held[k].items()):
+                for which, w in (('held', v), ('fetched', None)):
+                    try:
+                        if w is None: w = x[p]
+                        got = {c: float(f) for c, f in zip(cas, np.asarray(w.mol.to_array(), float)) if f}
+                        wT, wP, wph = float(w.T), float(w.P), w.phase
+                    except Exception as e:
+                        raise Violation('unexpected-exception', f'after {a!r} (streams {st.names}): reading the {which} view {p!r} of stream {k} raised {type(e).__name__}: {e}',
+                                        match=dict(op=op, exc=type(e).__name__, stage='read-phase-view', **match0))
+                    what = 'flows' if got != exp[2][p] else 'T' if wT != exp[3] else 'P' if wP != exp[4] else 'phase' if wph != p else None
+                    if what:
+                        raise Violation('phase-view-stale', f'after {a!r} (streams {st.names}): the {which} view {p!r} of stream {k} reads {sorted(got.items())} at {wT} K, {wP} Pa; '
+                                        f'the parent row is {sorted(exp[2][p].items())} at {exp[3]} K, {exp[4]} Pa',
+                                        match=dict(op=op, view=which, what=what, role=roles.get(k, 'bystander'), **match0))
 
     # ---- one transition -----------------------------------------------------------------------------------------------
     def step(self, st, a):
@@ -412,7 +458,7 @@ class C13(System):
                                 match=dict(op=op, **match0))
             if new.chemicals is not th.chemicals:
                 raise Violation('copy-differs', f'{a!r}: the copy is not on the requested package', match=dict(op=op, what='package', role='target', **match0))
-            X[d] = new
+            X[d] = new; st.held.pop(d, None)
             I, TP, F = m.fresh(), m.fresh(), m.fresh()
             m.tps[TP] = list(m.tps[sj['TP']])
             Ph = None
@@ -431,7 +477,7 @@ class C13(System):
             sj = m.slots[j]; ij = m.idx[sj['I']]
             match0 = dict(src=klass(m, j))
             new = guarded(lambda: getattr(X[j], op)(), match0)
-            X[d] = new
+            X[d] = new; st.held.pop(d, None)
             if op == 'proxy':
                 m.slots[d] = dict(kind=sj['kind'], pkg=sj['pkg'], I=sj['I'], TP=sj['TP'])
             else:
@@ -496,6 +542,37 @@ class C13(System):
             si['I'] = I; si['TP'] = TP
             self._compare(st, op, a, {i: 'target'}, match0, before)
             st.nontriv = shared
+            st.nsteps += 1
+            return (op, match0['kind'], shared)
+
+        if op == 'view':
+            _, i = a
+            match0 = dict(kind=klass(m, i))
+            phases = m.view(i)[1]
+            st.held[i] = guarded(lambda: {p: X[i][p] for p in phases}, match0)
+            self._compare(st, op, a, {i: 'target'}, match0, before)
+            st.nontriv = True
+            st.nsteps += 1
+            return (op, match0['kind'])
+
+        if op in ('vflow', 'vT'):
+            # write THROUGH a held phase view: must land in the parent and in everything that shares the container
+            _, i, p, *rest = a
+            si = m.slots[i]; ii = m.idx[si['I']]
+            match0 = dict(kind=klass(m, i), via='view')
+            shared = m.shared_any(i)
+            v = st.held[i][p]
+            if op == 'vflow':
+                ID, val = rest
+                guarded(lambda: v.imol.__setitem__(ID, val), match0)
+                row = m.flows[ii['F']][p]
+                if val: row[_CAS[ID]] = val
+                else: row.pop(_CAS[ID], None)
+            else:
+                guarded(lambda: setattr(v, 'T', rest[0]), match0)
+                m.tps[si['TP']][0] = rest[0]
+            self._compare(st, 'flow' if op == 'vflow' else 'T', a, {i: 'target'}, match0, before)
+            st.nontriv = True
             st.nsteps += 1
             return (op, match0['kind'], shared)
 
@@ -703,7 +780,7 @@ class PickleGrid(System):
 
     def build(self, config):
         tmo = fx.tmo()
-        st = St(); st.names = config; st.last = None; st.nontriv = False; st.nsteps = 0; st.m = None
+        st = St(); st.names = config; st.last = None; st.nontriv = False; st.nsteps = 0; st.m = None; st.held = {}
         kind = config[0]
         if kind == 'stream':
             _, t, price, cf, ID, how = config
@@ -901,11 +978,11 @@ SYSTEMS = [
     # copy(thermo=other package) onto smaller / larger / re-ordered packages, then mutations (independence)
     C13('c13.copythermo', ('Sl_A', 'Mgl_A', 'Sl_B', 'Mgl_B', 'Sl_C', 'Mgl_C', 'Sl_Am', 'Mgl_Cm', 'M1l_A', 'MLl_A'), 2, 3,
         ops=('copy_thermo', 'mutate_flow', 'reorder'), tcap_t=120),
-    C13('c13.copylike', _ALL, 2, 3, ops=('copy', 'copy_like', 'mutate', 'reorder'), copy_like_pairs={(0, 1), (1, 0), (2, 0), (2, 1), (0, 2), (1, 2)}, tcap_t=400),
+    C13('c13.copylike', _ALL, 2, 3, ops=('copy', 'copy_like', 'mutate', 'reorder'), copy_like_pairs={(0, 1), (1, 0), (2, 0), (2, 1), (0, 2), (1, 2)}, tcap_t=400, pviews=True),
     # links / proxies / unlink / mutation / pickle, all ordered pairs of five templates
-    C13('c13.share', _CORE, 2, 3, ops=_ALLOPS, pickle_depth=1, tcap_t=500, views=True),
+    C13('c13.share', _CORE, 2, 3, ops=_ALLOPS, pickle_depth=1, tcap_t=500, views=True, pviews=True),
     # longer histories on a small universe
     C13('c13.share.deep', ('Sl_A', 'Sg_A', 'Mgl_A'), 3, 4, ops=_ALLOPS, pickle_depth=0,
-        link_flags=[(True, True, True), (True, False, False), (False, True, False), (False, False, True), (True, False, True)], tcap_t=500, views=True),
+        link_flags=[(True, True, True), (True, False, False), (False, True, False), (False, False, True), (True, False, True)], tcap_t=400, views=True, pviews=True),
     PickleGrid(),
 ]
